@@ -188,6 +188,30 @@ pub fn check_case(case: &Case, ctx: &mut Ctx) {
                         );
                     }
                 }
+                // (a') the Box marker of the field list (the written type name, as in every well-formed registry)
+                if let Some(tn) = &rf.type_name {
+                    let tn = squash(tn);
+                    let alloc_root = squash(spec.alloc.as_deref().unwrap_or("::std"));
+                    let is_box = ty_str(&gf.ty).starts_with(&format!("{alloc_root}::boxed::Box<"));
+                    let written_box = tn.starts_with("Box<") || tn.starts_with("::std::boxed::Box<") || tn.starts_with("boxed::Box<");
+                    let mentions_box = tn.contains("Box<");
+                    if written_box && !compact && !is_box {
+                        ctx.violation(
+                            "C18/box-marker/missing",
+                            format!("{what}: field {i} is written `{tn}` in the list but the standalone struct has `{}`", ty_str(&gf.ty)),
+                            replay(),
+                            size,
+                        );
+                    }
+                    if !mentions_box && is_box {
+                        ctx.violation(
+                            "C18/box-marker/spurious",
+                            format!("{what}: field {i} is written `{tn}` in the list but the standalone struct boxes it: `{}`", ty_str(&gf.ty)),
+                            replay(),
+                            size,
+                        );
+                    }
+                }
                 // (b) token identity with the emitted item's own field
                 if let Some(ef) = emitted_fields.and_then(|f| f.list().get(i)) {
                     if ty_str(&ef.ty) != ty_str(&gf.ty) {
